@@ -127,15 +127,23 @@ Section Rename.
       Ok (with_node r1 n')
     else Ok r.
 
-  Fixpoint hash_transform (hs : list string) (m : list resource) : res (list resource) :=
+  Fixpoint hash_renames (hs : list string) (m : list resource) : res (list resource) :=
     match m, hs with
     | [], _ => Ok []
     | r :: t, h :: hs' =>
         do r' <- hash_one h r;
-        do t' <- hash_transform hs' t;
+        do t' <- hash_renames hs' t;
         Ok (r' :: t')
     | _ :: _, [] => Err
     end.
+
+  (* ... then (repair W-hash-suffix-id-conflict, 9a490e0) every renamed resource must be the only one of the
+     map with its new id: "name hash suffix produces ID conflict".  The test runs after ALL renames. *)
+  Definition hash_ids_distinct (m : list resource) : bool :=
+    forallb (fun r => negb (r_needs_hash r) || Nat.eqb (count_id (cur_id cs r) m) 1) m.
+  Definition hash_transform (hs : list string) (m : list resource) : res (list resource) :=
+    do m' <- hash_renames hs m;
+    if hash_ids_distinct m' then Ok m' else Err.
 
   (* ---------- accumulation ---------- *)
 
